@@ -845,7 +845,7 @@ static config_setting_t *config_setting_create(config_setting_t *parent,
 
   setting = __new(config_setting_t);
   setting->parent = parent;
-  setting->name = (name == NULL) ? NULL : strdup(name);
+  setting->name = (name == NULL) ? NULL : libconfig_strdup(name);
   setting->type = type;
   setting->config = parent->config;
   setting->hook = NULL;
@@ -1199,7 +1199,7 @@ int config_setting_set_string(config_setting_t *setting, const char *value)
   if(setting->value.sval)
     __delete(setting->value.sval);
 
-  setting->value.sval = (value == NULL) ? NULL : strdup(value);
+  setting->value.sval = (value == NULL) ? NULL : libconfig_strdup(value);
   return(CONFIG_TRUE);
 }
 
@@ -1620,7 +1620,7 @@ void config_set_destructor(config_t *config, void (*destructor)(void *))
 void config_set_include_dir(config_t *config, const char *include_dir)
 {
   __delete(config->include_dir);
-  config->include_dir = (include_dir == NULL) ? NULL : strdup(include_dir);
+  config->include_dir = (include_dir == NULL) ? NULL : libconfig_strdup(include_dir);
 }
 
 /* ------------------------------------------------------------------------- */
@@ -1801,7 +1801,7 @@ const char **config_default_include_func(config_t *config,
     strcat(file, path);
   }
   else
-    file = strdup(path);
+    file = libconfig_strdup(path);
 
   *error = NULL;
 
